@@ -305,6 +305,11 @@ Proof. induction l as [|x r IH]; intros H; [cbn; lia|]. cbn. apply Nat.max_lub; 
 Lemma fold_max_ge l x : In x l -> x <= fold_right Nat.max 0 l.
 Proof. induction l as [|y r IH]; intros H; [destruct H|]. cbn. destruct H as [->|H]; [apply Nat.le_max_l|]. etransitivity; [apply IH; exact H|apply Nat.le_max_r]. Qed.
 
+Lemma map_nth_seq {V} (l : list V) d : map (fun k => nth k l d) (seq 0 (List.length l)) = l.
+Proof.
+  induction l as [|x r IH]; [reflexivity|]. cbn [List.length seq map nth]. f_equal. rewrite <- seq_shift, map_map. exact IH.
+Qed.
+
 Lemma aux_names (names : list str) (dflt : nat -> str) :
   let auxs := rev (combine (seq 0 (List.length names)) names) in
   let auxnum := match auxs with [] => O | _ => S (fold_right Nat.max O (map fst auxs)) end in
@@ -315,21 +320,136 @@ Proof.
   assert (map fst auxs = rev (seq 0 m)) as MF by (unfold auxs, m; rewrite map_rev, map_fst_combine_seq; reflexivity).
   assert (NoDup (map fst auxs)) as ND by (rewrite MF; apply NoDup_rev; apply seq_NoDup).
   assert (auxnum = m) as EM.
-  { unfold auxnum. destruct names as [|x r] eqn:En; [reflexivity|]. rewrite <- En in *.
-    assert (m = S (List.length r)) as Hm by (unfold m; rewrite En; reflexivity).
+  { unfold auxnum. destruct names as [|x r]; [reflexivity|].
+    assert (m = S (List.length r)) as Hm by (unfold m; reflexivity).
     destruct auxs as [|e es] eqn:Ea.
     - exfalso. apply (f_equal (@List.length _)) in Ea. unfold auxs in *. rewrite rev_length, combine_length, seq_length in Ea. fold m in Ea. rewrite Nat.min_id in Ea. cbn in Ea. lia.
-    - rewrite <- Ea in *. rewrite MF. f_equal.
+    - rewrite <- Ea in *. rewrite MF. cut (fold_right Nat.max 0 (rev (seq 0 m)) = List.length r); [lia|].
       apply Nat.le_antisymm.
       + apply fold_max_le. intros x0 Hx. apply in_rev in Hx. apply in_seq in Hx. lia.
       + assert (In (List.length r) (rev (seq 0 m))) as Hin by (apply in_rev; rewrite rev_involutive; apply in_seq; lia).
         pose proof (fold_max_ge _ _ Hin). lia. }
   split; [exact EM|]. rewrite EM.
-  apply nth_ext with (d := []) (d' := []); [rewrite map_length, seq_length; reflexivity|].
-  intros k Hk. rewrite map_length, seq_length in Hk.
-  rewrite (nth_indep _ [] ((fun k0 => match find (fun e => (fst e =? k0)%nat) auxs with Some e => snd e | None => dflt k0 end) 0))
-    by (rewrite map_length, seq_length; exact Hk).
-  rewrite map_nth, seq_nth by exact Hk. cbn [Nat.add].
-  assert (In (k, nth k names []) auxs) as Hin by (unfold auxs; apply in_rev; rewrite rev_involutive; exact (in_combine_seq names [] 0 k Hk)).
+  etransitivity; [|apply (map_nth_seq names [])]. fold m. apply map_ext_in. intros k Hk. apply in_seq in Hk.
+  assert (In (k, nth k names []) auxs) as Hin by (unfold auxs; apply in_rev; rewrite rev_involutive; apply (in_combine_seq names [] 0 k); unfold m in Hk; lia).
   rewrite (find_key _ _ _ ND Hin). reflexivity.
+Qed.
+
+(* ---- assembly ---- *)
+Lemma concat_opt_cons {A} (x : option (list A)) r l : concat_opt (x :: r) = Some l ->
+  exists a b, x = Some a /\ concat_opt r = Some b /\ l = a ++ b.
+Proof.
+  unfold concat_opt. cbn [fold_right]. fold (concat_opt r). destruct x as [a|]; [|discriminate]. destruct (concat_opt r) as [b|]; [|discriminate].
+  intros E. inversion E. exists a, b. repeat split.
+Qed.
+
+Lemma xloop_break h l r : xstep h l = XBreak -> xloop h (l :: r) = Some (h, r).
+Proof. intros E. cbn [xloop]. rewrite E. reflexivity. Qed.
+
+Definition goodn (l : str) : Prop := nocrlf l /\ l <> [].
+
+Lemma h0_loop b h0l : h0_lines b = Some h0l -> forall h n0 rest, xh_n h = Some n0 ->
+  let '((a11, a12, a13), (a21, a22, a23), (a31, a32, a33)) := b in
+  xloop h (h0l ++ rest) =
+  xloop (XHdr (xh_n h) (xh_A h)
+          ([((3, 3), g8 a33); ((3, 2), g8 a32); ((3, 1), g8 a31); ((2, 3), g8 a23); ((2, 2), g8 a22); ((2, 1), g8 a21);
+            ((1, 3), g8 a13); ((1, 2), g8 a12); ((1, 1), g8 a11)] ++ xh_H0 h) (xh_novel h) (xh_count h) (xh_aux h)) rest /\
+  Forall goodn h0l.
+Proof.
+  destruct b as [[[[a11 a12] a13] [[a21 a22] a23]] [[a31 a32] a33]]. unfold h0_lines. cbn [map_opt fst snd].
+  intros E h n0 rest Hn.
+  repeat match type of E with context [render xcfg_w_H0 ?args] =>
+    let l := fresh "l" in let El := fresh "El" in destruct (render xcfg_w_H0 args) as [l|] eqn:El; [|cbn in E; discriminate] end.
+  cbn in E. inversion E; subst h0l. clear E.
+  Ltac h0step El Hn := match type of El with render xcfg_w_H0 [AInt (Z.of_nat ?i); AInt (Z.of_nat ?j); ANum ?d] = Some ?l =>
+    let S1 := fresh "S" in let N1 := fresh "N" in let N2 := fresh "N" in
+    destruct (step_H0 i j d l _ _ ltac:(cbn; tauto) ltac:(cbn; tauto) El Hn) as [S1 [N1 N2]] end.
+  change 1%Z with (Z.of_nat 1) in *. change 2%Z with (Z.of_nat 2) in *. change 3%Z with (Z.of_nat 3) in *.
+  cbn [app].
+  repeat match goal with El : render xcfg_w_H0 [AInt (Z.of_nat ?i); AInt (Z.of_nat ?j); ANum ?d] = Some ?l |- context [xloop ?hh (?l :: _)] =>
+    let S1 := fresh "S" in let N1 := fresh "N" in let N2 := fresh "N" in
+    destruct (step_H0 i j d l hh n0 ltac:(cbn; tauto) ltac:(cbn; tauto) El Hn) as [S1 [N1 N2]];
+    rewrite (xloop_cont _ _ _ _ S1); clear S1 El end.
+  split; [reflexivity|]. repeat (apply Forall_cons; [split; assumption|]). apply Forall_nil.
+Qed.
+
+Lemma goodx_goodn l : goodx l -> goodn l.
+Proof. intros [H1 H2]. split; [exact H1|]. intros ->. apply H2. reflexivity. Qed.
+
+Theorem roundtrip_xcfg St t : repr_xcfg St = true -> write_xcfg St = Some t -> read_xcfg t = Some (canon_xcfg St).
+Proof.
+  unfold repr_xcfg, write_xcfg. intros R W. apply andb_true_iff in R. destruct R as [R Hatoms]. apply andb_true_iff in R. destruct R as [Hne Hnames].
+  destruct (print_xcfg St) as [lines|] eqn:EP; [|discriminate]. cbn [option_map] in W. inversion W; subst t. clear W.
+  unfold print_xcfg in EP. destruct (c_atoms St) as [|a0 atoms'] eqn:EA; [discriminate|]. rewrite <- EA in *.
+  set (cols := aux_columns St) in *.
+  apply concat_opt_cons in EP. destruct EP as [x1 [r1 [E1 [EP ->]]]].
+  apply concat_opt_cons in EP. destruct EP as [x2 [r2 [E2 [EP ->]]]].
+  apply concat_opt_cons in EP. destruct EP as [h0l [r3 [E3 [EP ->]]]].
+  apply concat_opt_cons in EP. destruct EP as [x4 [r4 [E4 [EP ->]]]].
+  apply concat_opt_cons in EP. destruct EP as [x5 [r5 [E5 [EP ->]]]].
+  apply concat_opt_cons in EP. destruct EP as [auxl [r6 [E6 [EP ->]]]].
+  apply concat_opt_cons in EP. destruct EP as [x7 [r7 [E7 [EP ->]]]].
+  apply concat_opt_cons in EP. destruct EP as [blk [r8 [E8 [EP ->]]]]. cbn in EP. inversion EP; subst r8. clear EP. rewrite app_nil_r.
+  destruct (render xcfg_w_nparticles _) as [lnp|] eqn:Enp; [|discriminate]. inversion E1; subst x1. clear E1.
+  destruct (render xcfg_w_A _) as [lA|] eqn:EAl; [|discriminate]. inversion E2; subst x2. clear E2.
+  inversion E4; subst x4. clear E4.
+  destruct (render xcfg_w_entry_count _) as [lcnt|] eqn:Ecnt; [|discriminate]. inversion E5; subst x5. clear E5.
+  inversion E7; subst x7. clear E7.
+  (* the data block starts with a mass line *)
+  assert (Forall atom_ok (c_atoms St)) as Fok.
+  { rewrite forallb_forall in Hatoms. apply Forall_forall. intros a Ha. specialize (Hatoms a Ha). apply andb_true_iff in Hatoms.
+    destruct Hatoms as [H1 H2]. split; [exact H1|apply negb_true_iff; exact H2]. }
+  destruct (data_block cols _ None blk Fok E8) as [DB GB]. cbn [option_map] in DB.
+  assert (exists m rest, blk = m :: rest /\ render xcfg_w_mass [ANum (mass_of (c_el a0))] = Some m) as [m [rest [Eblk Em]]].
+  { rewrite EA in E8. cbn [C04_Xcfg.atom_block] in E8.
+    destruct (render xcfg_w_mass [ANum (mass_of (c_el a0))]) as [m|]; [|discriminate]. cbn [option_map] in E8.
+    destruct (entry_line cols a0); [|discriminate]. destruct (C04_Xcfg.atom_block cols (Some (c_el a0)) atoms'); [|discriminate].
+    inversion E8. eexists. eexists. split; reflexivity. }
+  set (h0 := XHdr None None [] false None []).
+  destruct (step_np _ _ h0 Enp eq_refl) as [S1 G1].
+  destruct (step_A _ _ (set_n h0 (Z.of_nat (List.length (c_atoms St)))) _ EAl eq_refl) as [S2 G2].
+  pose proof (h0_loop _ _ E3) as HL. destruct (c_base St) as [[[[a11 a12] a13] [[a21 a22] a23]] [[a31 a32] a33]] eqn:EB.
+  set (h2 := set_A (set_n h0 (Z.of_nat (List.length (c_atoms St)))) (gqd (gprec xcfg_w_A 0) (c_A St))) in *.
+  destruct (HL h2 _ ([xcfg_w_novel] ++ [lcnt] ++ auxl ++ [[]] ++ blk) eq_refl) as [S3 G3].
+  match type of S3 with _ = xloop ?hh _ => set (h3 := hh) in * end.
+  pose proof (step_novel h3 _ eq_refl) as S4.
+  destruct (step_count _ _ (set_novel h3) _ Ecnt eq_refl) as [S5 G5].
+  destruct (aux_loop cols 0 (set_count (set_novel h3) (3 + Z.of_nat (List.length cols))) _ auxl ([[]] ++ blk) Hnames eq_refl E6) as [S6 G6].
+  match type of S6 with _ = xloop ?hh _ => set (h6 := hh) in * end.
+  destruct (step_mass _ _ h6 _ (mass_nonneg _) Em eq_refl) as [S8 [_ [_ [Sm Fm]]]].
+  (* text wrapper and trailing blank lines *)
+  set (lines := [lnp] ++ [lA] ++ h0l ++ [xcfg_w_novel] ++ [lcnt] ++ auxl ++ [[]] ++ blk).
+  assert (Forall nocrlf lines) as NC.
+  { unfold lines. repeat (apply Forall_app; split); try (apply Forall_cons; [|apply Forall_nil]); try (apply G1 || apply G2 || apply G5);
+    try (split; reflexivity).
+    - eapply Forall_impl; [|exact G3]. intros l [H _]. exact H.
+    - eapply Forall_impl; [|exact G6]. intros l [H _]. exact H.
+    - eapply Forall_impl; [|exact GB]. intros l [H _]. exact H. }
+  assert (exists pre y, lines = pre ++ [y] /\ goodx y) as [pre [y [Ely Gy]]].
+  { assert (blk <> []) as Hb by (rewrite Eblk; discriminate). destruct (exists_last Hb) as [b' [y Eq]].
+    exists ([lnp] ++ [lA] ++ h0l ++ [xcfg_w_novel] ++ [lcnt] ++ auxl ++ [[]] ++ b'), y. split.
+    - unfold lines. rewrite Eq. rewrite <- !app_assoc. reflexivity.
+    - rewrite Eq in GB. apply Forall_app in GB. destruct GB as [_ GB]. inversion GB. assumption. }
+  unfold read_xcfg. match goal with |- context [text_of_lines ?L] => change L with lines end. rewrite Ely.
+  destruct Gy as [Ny Ty].
+  rewrite lines_text_roundtrip.
+  2: { rewrite <- Ely. clear -NC. induction NC as [|x l [H _] _ IH]; [reflexivity|]. cbn. rewrite H, IH. reflexivity. }
+  2: { apply last_ok_of_no_crlf; [intros ->; apply Ty; reflexivity|apply Ny|apply Ny]. }
+  unfold parse_xcfg. rewrite rstrip_lines_last by (apply blank_false_of_tokens; exact Ty). rewrite <- Ely. unfold lines.
+  (* the header loop *)
+  cbn [app]. rewrite (xloop_cont _ _ _ _ S1), (xloop_cont _ _ _ _ S2). fold h2.
+  change (h0l ++ xcfg_w_novel :: lcnt :: auxl ++ [] :: blk) with (h0l ++ [xcfg_w_novel] ++ [lcnt] ++ auxl ++ [[]] ++ blk). rewrite S3.
+  cbn [app]. rewrite (xloop_cont _ _ _ _ S4), (xloop_cont _ _ _ _ S5).
+  change (auxl ++ [] :: blk) with (auxl ++ [[]] ++ blk). rewrite S6. cbn [app]. rewrite (xloop_cont _ _ _ _ (step_blank h6)).
+  rewrite Eblk. rewrite (xloop_break _ _ _ S8).
+  (* what was collected *)
+  unfold h6, add_auxs, set_count, set_novel, h3, h2, set_A, set_n, h0.
+  cbn [xh_n xh_A xh_H0 xh_novel xh_count xh_aux app lookup_h0 find fst snd Nat.eqb andb].
+  rewrite app_nil_r. rewrite <- (map_length fst cols).
+  destruct (aux_names (map fst cols) (fun k => s (String.String "a" (String.String "u" (String.String "x" String.EmptyString))) ++ int_body (Z.of_nat k))) as [AN1 AN2].
+  cbv zeta in AN1, AN2. rewrite AN1 in AN2. rewrite AN1, AN2. rewrite map_length.
+  assert ((Z.of_nat (List.length cols) + 3 =? 3 + Z.of_nat (List.length cols))%Z = true) as -> by (apply Z.eqb_eq; lia).
+  replace (3 + Z.of_nat (List.length cols))%Z with (Z.of_nat (3 + List.length cols)) by lia.
+  rewrite <- (xdata_mass _ None m rest Sm Fm), <- Eblk, DB. rewrite map_length, Z.eqb_refl.
+  unfold canon_xcfg. fold cols. rewrite EB. reflexivity.
 Qed.
